@@ -478,3 +478,30 @@ Theorem C19_cached_reverse_refuted :
   run_gops sh_id g0 [GReverse; edit; GReverse] = [[(0, []); (1, [0])]; [(0, [1]); (1, [])]]%N.
 Proof. exact cached_reverse_refuted. Qed.
 Print Assumptions C19_cached_reverse_refuted.
+
+(** * Round 3 (seeded change C19-j): no state shared between calls *)
+
+Theorem C19_no_package_state : gen_package_vars = [].
+Proof. exact gen_dags_no_package_state. Qed.
+Print Assumptions C19_no_package_state.
+
+(** The checker's answer is a function of the graph argument alone: two
+    calls on the same graph agree on the verdict class and the cycle length,
+    and a reported cycle walks the caller's own graph. *)
+Theorem C19_answer_depends_on_graph_only : forall sh1 sh2 g,
+  perm_oracle sh1 -> perm_oracle sh2 -> wf g ->
+  match check_dag sh1 g, check_dag sh2 g with
+  | VOk _, VOk _ => True
+  | VMissing, VMissing => True
+  | VCircle c1, VCircle c2 => length c1 = length c2 /\ closed_walk g c1 /\ closed_walk g c2
+  | _, _ => False
+  end.
+Proof. exact answer_depends_on_graph_only. Qed.
+Print Assumptions C19_answer_depends_on_graph_only.
+
+Theorem C19_shared_queue_refuted :
+  dequeue_shared [0; 1]%N [7; 8]%N 0 = Some 7%N /\
+  ~ In 7%N (keys [(0, [1]); (1, [0])]%N) /\
+  nth_error [0; 1]%N 0 = Some 0%N.
+Proof. exact shared_queue_refuted. Qed.
+Print Assumptions C19_shared_queue_refuted.
